@@ -93,7 +93,7 @@ def main():
                         detected = True
                         if c == ID or len(runs) >= 2:
                             break
-                    if len(runs) >= 5:
+                    if len(runs) >= int(os.environ.get("MUT_MAXRUNS", "5")):
                         break
                 meta["checks_run"] = runs
                 meta["detected_by"] = [r["check"] for r in runs if r["exit"] == 1]
